@@ -23,15 +23,16 @@ import (
 // sandbox.
 
 type TreeCase struct {
-	px.ProgCase        // Modules["main"]: the printer's text
+	px.ProgCase        // Modules["main"]: the printer's text at generation time (documentation only)
+	Tree        *tnode // the tree itself: it is printed anew by every evaluation / replay
 	Reference   string // fully parenthesised text of the same tree
 	Kind        string
 }
 
 type tnode struct {
-	op   string // infix operator, "neg", "lit", "tofloat"
-	l, r *tnode
-	v    int64
+	Op   string // infix operator, "neg", "lit", "tofloat"
+	L, R *tnode `json:",omitempty"`
+	V    int64  `json:",omitempty"`
 }
 
 var treeOps = []struct {
@@ -47,56 +48,56 @@ var treeOps = []struct {
 func genTree(rt *rapid.T, depth int) *tnode {
 	k := rapid.IntRange(0, 9).Draw(rt, "node")
 	if depth <= 0 || k < 2 {
-		return &tnode{op: "lit", v: int64(rapid.IntRange(1, 9).Draw(rt, "lit"))}
+		return &tnode{Op: "lit", V: int64(rapid.IntRange(1, 9).Draw(rt, "lit"))}
 	}
 	if k == 2 {
-		return &tnode{op: "neg", l: genTree(rt, depth-1)}
+		return &tnode{Op: "neg", L: genTree(rt, depth-1)}
 	}
 	if k == 3 {
-		return &tnode{op: "tofloat", l: genTree(rt, depth-1)}
+		return &tnode{Op: "tofloat", L: genTree(rt, depth-1)}
 	}
 	o := treeOps[rapid.IntRange(0, len(treeOps)-1).Draw(rt, "op")]
-	return &tnode{op: o.s, l: genTree(rt, depth-1), r: genTree(rt, depth-1)}
+	return &tnode{Op: o.s, L: genTree(rt, depth-1), R: genTree(rt, depth-1)}
 }
 
 // reference: every compound node in parentheses
 func (n *tnode) ref() string {
-	switch n.op {
+	switch n.Op {
 	case "lit":
-		return fmt.Sprint(n.v)
+		return fmt.Sprint(n.V)
 	case "neg":
-		return "(-" + n.l.ref() + ")"
+		return "(-" + n.L.ref() + ")"
 	case "tofloat":
-		return "((" + n.l.ref() + " as float) as int)"
+		return "((" + n.L.ref() + " as float) as int)"
 	}
-	return "(" + n.l.ref() + " " + n.op + " " + n.r.ref() + ")"
+	return "(" + n.L.ref() + " " + n.Op + " " + n.R.ref() + ")"
 }
 
 // the analysed tree, without grouping nodes
 func (n *tnode) analysed() aast.AnalyzedExpression {
 	sp := errors.Span{}
 	intT := aast.NewIntType(sp)
-	switch n.op {
+	switch n.Op {
 	case "lit":
-		return aast.AnalyzedIntLiteralExpression{Value: n.v, Range: sp}
+		return aast.AnalyzedIntLiteralExpression{Value: n.V, Range: sp}
 	case "neg":
-		return aast.AnalyzedPrefixExpression{Operator: aast.MinusPrefixOperator, Base: n.l.analysed(), ResultType: intT, Range: sp}
+		return aast.AnalyzedPrefixExpression{Operator: aast.MinusPrefixOperator, Base: n.L.analysed(), ResultType: intT, Range: sp}
 	case "tofloat":
-		return aast.AnalyzedCastExpression{Base: aast.AnalyzedCastExpression{Base: n.l.analysed(), AsType: aast.NewFloatType(sp), Range: sp}, AsType: intT, Range: sp}
+		return aast.AnalyzedCastExpression{Base: aast.AnalyzedCastExpression{Base: n.L.analysed(), AsType: aast.NewFloatType(sp), Range: sp}, AsType: intT, Range: sp}
 	}
 	for _, o := range treeOps {
-		if o.s == n.op {
-			return aast.AnalyzedInfixExpression{Lhs: n.l.analysed(), Rhs: n.r.analysed(), Operator: o.op, ResultType: intT, Range: sp}
+		if o.s == n.Op {
+			return aast.AnalyzedInfixExpression{Lhs: n.L.analysed(), Rhs: n.R.analysed(), Operator: o.op, ResultType: intT, Range: sp}
 		}
 	}
-	panic("op " + n.op)
+	panic("op " + n.Op)
 }
 
 func (n *tnode) size() int {
 	if n == nil {
 		return 0
 	}
-	return 1 + n.l.size() + n.r.size()
+	return 1 + n.L.size() + n.R.size()
 }
 
 func treeProgram(expr string) string {
@@ -126,6 +127,9 @@ func checkTree(c TreeCase) *pk.Failure {
 		return nil
 	}
 	pk.Extra("programs", 1)
+	if c.Tree != nil {
+		c.ProgCase.Modules = map[string]string{"main": treeProgram(c.Tree.analysed().String())}
+	}
 	got, f := run(c.Modules["main"], "printed")
 	if f != nil {
 		f.Msg = "--- printed tree\n" + c.Modules["main"] + "\n--- the tree, fully parenthesised\n" + c.Reference + "\n" + f.Msg
@@ -146,7 +150,7 @@ func init() { pk.Reg("tree", checkTree) }
 func treeCase(n *tnode) TreeCase {
 	printed := treeProgram(n.analysed().String())
 	return TreeCase{ProgCase: px.ProgCase{Modules: map[string]string{"main": printed}, Entry: "main", Limits: sb.DefaultLimits()},
-		Reference: treeProgram(n.ref()), Kind: "tree"}
+		Tree: n, Reference: treeProgram(n.ref()), Kind: "tree"}
 }
 
 // TestTreeShape: expression trees whose shape differs from the left-to-right reading of their text.
